@@ -147,7 +147,7 @@ func acceptedStates(p *packages.Package, fd *ast.FuncDecl, states map[string]int
 }
 
 func runC14(c *core.Ctx) core.Meta {
-	c.Load(cuPkg, wfPkg, emuPkg)
+	c.Load(cuPkg, wfPkg, emuPkg, r9nanoPkg, mi300aPkg, saPkg)
 	c.BuildSSA()
 	pcu := NewPkgInfo(c, cuPkg)
 	pemu := NewPkgInfo(c, emuPkg)
@@ -404,6 +404,7 @@ func runC14(c *core.Ctx) core.Meta {
 	st8 := c.Rule("R14.8", "removing a finished wavefront from a wavefront pool (or any list of the compute unit) takes out exactly that wavefront: every append / in-place copy of the compute-unit package that joins two windows of one slice is append(s[:i], s[i+1:]...) or copy(s[i:], s[i+1:]) followed by a cut by one. A shifted window removes a live wavefront with the finished one: it is never scheduled again, its work-group never completes and the wavefronts of its group wait at the next barrier for ever", 1)
 	checkSliceRemovalIdiom(c, st8, "R14.8", pcu, "a live wavefront leaves the pool with the finished one and is never scheduled again")
 	checkNoCompactionWhileRanging(c, "R14.12", 6, pcu, pemu)
+	checkVecMemPipelineSingleLane(c, "R14.14", pcu, NewPkgInfo(c, mi300aPkg), NewPkgInfo(c, r9nanoPkg), NewPkgInfo(c, saPkg))
 	// ---------------- R14.13 the last-piece marker is only ever raised ----------------
 	st13 := c.Rule("R14.13", "the compute unit retires a memory instruction (decrements the wavefront's outstanding counters) when the response to a request with CanWaitForCoalesce == false arrives: the flag marks every piece of an instruction but the last. In the CU package the flag is only ever raised: every store to a CanWaitForCoalesce field stores the constant true (the pieces ahead of the last one, where the instruction's transactions are formed). A store of false - or of a computed value - anywhere else turns a middle piece into a last one: the instruction retires on that piece's response, s_waitcnt and s_endpgm pass with loads in flight, and the real last response drives the counter below zero", 3)
 	for _, fn := range pcu.Funcs {
